@@ -6,8 +6,8 @@ M("box-pinned-iterate", "main.py", "            x = np.clip(x + steplength * d, 
 M("box-swapped-bounds", "main.py", "            x = np.clip(x + steplength * d, lb, ub)\n", "            x = np.clip(x + steplength * d, ub, lb)\n", ["BOX"])
 M("box-inplace-after-projection", "main.py", "            x = np.clip(x + steplength * d, lb, ub)\n", "            x = np.clip(x + steplength * d, lb, ub)\n            x += 0.0 * d\n", ["BOX", "COH"])
 M("box-callback-gets-xbar", "main.py", "                if callback(\n                    np.copy(x),\n", "                if callback(\n                    np.copy(xbar),\n", ["BOX"])
-M("box-result-x-unprojected", "main.py", "        message=istate.task_str,\n        x=x,\n        success=istate.is_success,\n        hess_inv=LbfgsInvHessProduct(\n            np.atleast_2d(",
-  "        message=istate.task_str,\n        x=x + 0.0,\n        success=istate.is_success,\n        hess_inv=LbfgsInvHessProduct(\n            np.atleast_2d(", ["BOX"])
+M("box-result-x-unprojected", "main.py", "        message=istate.task_str,\n        x=x,\n        success=istate.is_success,\n        scaling_factor=sf.scaling_factor,\n        hess_inv=LbfgsInvHessProduct(\n            np.atleast_2d(",
+  "        message=istate.task_str,\n        x=x + 0.0,\n        success=istate.is_success,\n        scaling_factor=sf.scaling_factor,\n        hess_inv=LbfgsInvHessProduct(\n            np.atleast_2d(", ["BOX"])
 M("box-linesearch-other-bounds", "main.py", "            d,\n            lb,\n            ub,\n            istate.nit,\n", "            d,\n            lb - 1e-12,\n            ub,\n            istate.nit,\n", ["BOX"])
 M("box-start-not-clipped", "main.py", "    x = clip2bounds(x0, lb, ub)\n", "    x = np.array(x0, dtype=np.float64)\n", ["BOX"])
 M("box-wrapper-key-perturbed", "scalar_function.py", "        self.x = np.atleast_1d(x).astype(float)\n        self.f_updated = False\n", "        self.x = np.atleast_1d(x).astype(float) * 1.0\n        self.f_updated = False\n", ["BOX"])
